@@ -1,7 +1,144 @@
-/- line-protocol handler for model "hpack" (stub until its model is built) -/
+/- line-protocol handler for model "hpack" (C07)
+   ops (bytes hex, "-" = empty):
+     int <pbits> <hex>          lshpack_dec_dec_int      -> "ok <val> <consumed>" | "err"
+     encint <pbits> <n>         lshpack_enc_enc_int      -> hex
+     huffenc <hex>              lshpack_enc_huff_encode  -> hex
+     huffdec <cap> <hex>        lshpack_dec_huff_decode  -> "ok <hex> ng=1" | "err <code> ng=1"
+     huffrt <hex>               encode and decode back   -> "<hex> ng=1 rt=<b>"
+     str <cap> <hex>            hdec_dec_str             -> "ok <hex> <consumed>" | "err <code>"
+     encstr <hex>               lshpack_enc_enc_str      -> hex
+     conn <cap> <op>...         one connection's decoder history:
+         B<hex> served block, D<hex> discarded block, S<n> set_max_capacity
+       -> one token per op ("ok:<fields>" | "e<code>:<fields>" then "dead" | "d" | "s"),
+          last token "T<max>/<cur>/<size>:<entries>"
+     connv / connx              same + " x=ok" (the harness cross-checks with nghttp2)
+     enc <max> <cur> <block>... reference encoder (tool use): block = fields joined by ",",
+         field = name:value:mode:idx:huffN:huffV:resize+resize..   -> one hex block per token
+-/
+import LtVerif.Model.Hpack
 namespace Driver
+open LtVerif LtVerif.B LtVerif.Hpack
+
+def hpHex (s : String) (f : Bytes → String) : String :=
+  match ofHex s with
+  | some b => f b
+  | none => "bad-op"
+
+def errStr (e : Err) : String := toString e.code
+
+def fieldStr (f : Field) : String :=
+  toHex f.name ++ ":" ++ toHex f.value ++ ":" ++ toString f.hint ++ ":" ++ (if f.never then "1" else "0")
+
+def joinWith (sep : String) (l : List String) : String :=
+  if l.isEmpty then "-" else sep.intercalate l
+
+def tableStr (d : Dec) : String :=
+  let rec go : List Header → List Nat → List String
+    | [], _ => []
+    | h :: t, hs => (toHex h.1 ++ ":" ++ toHex h.2 ++ ":" ++ toString (hs.headD 0)) :: go t hs.tail
+  "T" ++ toString d.tbl.maxCap ++ "/" ++ toString d.tbl.curMax ++ "/" ++
+    toString (tableSize d.tbl.dyn) ++ ":" ++ joinWith "," (go d.tbl.dyn d.hints)
+
+def connRun (cap : Nat) : Dec → List String → List String → String
+  | d, [], acc => " ".intercalate (acc.reverse ++ [tableStr d])
+  | d, op :: ops, acc =>
+    let kind := op.take 1
+    let arg := (op.drop 1).toString
+    if kind == "S" then
+      match arg.toNat? with
+      | some n => connRun cap (d.setMaxCapacity n) ops ("s" :: acc)
+      | none => "bad-op"
+    else
+      match ofHex arg with
+      | none => "bad-op"
+      | some bs =>
+        if kind == "D" then connRun cap (discardBlock cap d bs) ops ("d" :: acc)
+        else if kind == "B" then
+          let r := decodeBlock cap d bs
+          let fs := joinWith "," (r.fields.map fieldStr)
+          match r.err with
+          | none => connRun cap r.dec ops (("ok:" ++ fs) :: acc)
+          | some e => " ".intercalate (acc.reverse ++ ["e" ++ errStr e ++ ":" ++ fs, "dead", tableStr r.dec])
+        else "bad-op"
+
+def parseMode (s : String) : Option Mode :=
+  match s with
+  | "x" => some .indexed
+  | "i" => some .incr
+  | "w" => some .without
+  | "n" => some .never
+  | _ => none
+
+/-- name:value:mode:idx:huffN:huffV:resizes -/
+def parseEncField (s : String) : Option (Header × Choice) :=
+  match s.splitOn ":" with
+  | [n, v, m, i, hn, hv, rs] =>
+    match ofHex n, ofHex v, parseMode m, i.toNat? with
+    | some n, some v, some m, some i =>
+      let resize := if rs == "-" then [] else (rs.splitOn "+").filterMap String.toNat?
+      some ((n, v), { resize := resize, mode := m, idx := i, huffName := hn == "1", huffValue := hv == "1" })
+    | _, _, _, _ => none
+  | _ => none
+
+def encRun : Table → List String → List String → String
+  | _, [], acc => " ".intercalate acc.reverse
+  | t, blk :: rest, acc =>
+    let fs := if blk == "-" then some [] else (blk.splitOn ",").mapM parseEncField
+    match fs with
+    | none => "bad-op"
+    | some fs =>
+      let r := encodeBlock t (fs.map (·.2)) (fs.map (·.1))
+      encRun r.2 rest (toHex r.1 :: acc)
 
 def hpackLine : List String → String
+  | ["int", p, h] => hpHex h fun b =>
+    match p.toNat? with
+    | none => "bad-op"
+    | some p =>
+      match decInt p b with
+      | none => "err"
+      | some (v, rest) => "ok " ++ toString v ++ " " ++ toString (b.length - rest.length)
+  | ["encint", p, n] =>
+    match p.toNat?, n.toNat? with
+    | some p, some n => toHex (encInt p 0 n)
+    | _, _ => "bad-op"
+  | ["huffenc", h] => hpHex h fun b => toHex (huffEncode b)
+  | ["huffdec", c, h] => hpHex h fun b =>
+    match c.toNat? with
+    | none => "bad-op"
+    | some c =>
+      match huffDecode c b with
+      | .ok s => "ok " ++ toHex s ++ " ng=1"
+      | .error e => "err " ++ errStr e ++ " ng=1"
+  | ["str", c, h] => hpHex h fun b =>
+    match c.toNat? with
+    | none => "bad-op"
+    | some c =>
+      match decStr c b with
+      | .ok (s, rest) => "ok " ++ toHex s ++ " " ++ toString (b.length - rest.length)
+      | .error e => "err " ++ errStr e
+  | ["encstr", h] => hpHex h fun b => toHex (encStrLs b)
+  | "conn" :: c :: ops =>
+    match c.toNat? with
+    | some c => connRun c Dec.init ops []
+    | none => "bad-op"
+  | "connv" :: c :: ops =>
+    match c.toNat? with
+    | some c => connRun c Dec.init ops [] ++ " x=ok"
+    | none => "bad-op"
+  | "connx" :: c :: ops =>
+    match c.toNat? with
+    | some c => connRun c Dec.init ops [] ++ " x=ok"
+    | none => "bad-op"
+  | ["huffrt", h] => hpHex h fun b =>
+    toHex (huffEncode b) ++ " ng=1 rt=" ++
+      (match huffDecode (b.length + 16) (huffEncode b) with
+       | .ok s => if s = b then "1" else "0"
+       | .error _ => "0")
+  | "enc" :: mx :: cur :: blocks =>
+    match mx.toNat?, cur.toNat? with
+    | some mx, some cur => encRun ⟨mx, cur, []⟩ blocks []
+    | _, _ => "bad-op"
   | _ => "bad-op"
 
 end Driver
